@@ -56,6 +56,20 @@ struct plain_handler {
 	}
 };
 
+static void slow_seen_set(int h);
+// a handler that keeps the loop thread busy (mode burst)
+struct slow_handler {
+	int h,ms;
+	void operator()() const
+	{
+		bv::emit("\"e\":\"Run\",\"h\":%d,\"ec\":0,\"cls\":0,\"t\":%ld",h,(long)(ptime::milliseconds(ptime::now())-base_ms));
+		slow_seen_set(h);
+		usleep(ms*1000);
+		hstates[h].runs++;
+		ran_count++; progress++;
+	}
+};
+
 static unsigned long pid_of(void const *p) { return (unsigned long)((size_t)p & 0x3FFFFFFF); }
 
 struct producer {
@@ -323,6 +337,11 @@ struct loop_runner {
 	}
 };
 
+static booster::thread *th_burst;
+static std::atomic<int> slow_seen(-1);
+static bool slow_started(int h) { return slow_seen.load()==h; }
+static void slow_seen_set(int h) { slow_seen=h; }
+
 int main(int argc,char **argv)
 {
 	if(argc<6) return 2;
@@ -332,7 +351,7 @@ int main(int argc,char **argv)
 	unlink(out); bv::open(out);
 	base_ms=ptime::milliseconds(ptime::now());
 	long seed=vt::envl("VERIF_SEED",1);
-	hstates.resize((size_t)rounds*(producers+1)*nops*(mode=="cancelrace"?40:(mode=="closerace"?3:(mode=="restart"?2:1)))+16);
+	hstates.resize((size_t)rounds*(producers+1)*nops*(mode=="cancelrace"?40:(mode=="closerace"?3:(mode=="restart"?2:(mode=="burst"?300:1))))+16);
 	for(int r=0;r<rounds;r++) {
 		srv=new aio::io_service(reactor);
 		ran_count=0; reg_count=0;
@@ -366,6 +385,48 @@ int main(int argc,char **argv)
 			if(ran_count.load()<reg_count.load()) { bv::close(); _exit(0); } // a loop that lost handlers may never stop: do not join it
 			srv->stop();
 			loop2.join();
+			keep.clear(); keep2.clear();
+			delete srv; srv=0;
+			continue;
+		}
+		if(mode=="burst") {
+			// exactly N wake-ups pile up in the loop's wake-up pipe while the loop thread sits in a slow handler:
+			// a slow handler and one descriptor wait are queued BEFORE run() (so a deferred operation is pending while the
+			// slow handler runs and every set_io_event from another thread is deferred + writes one wake-up byte);
+			// N = 1, 63, 64, 65, 127, 128, 129, 192, 256 (multiples of the interrupter's read size included)
+			static const int Ns[]={64,1,63,65,128,127,129,192,256};
+			int N=Ns[r%9];
+			std::vector<int> fds,peers;
+			for(int n=0;n<=N;n++) { int sp[2]; if(socketpair(AF_UNIX,SOCK_STREAM,0,sp)<0) { N=n-1; break; } fds.push_back(sp[0]); peers.push_back(sp[1]); bv::emit("\"e\":\"Fd\",\"fd\":%d,\"peer\":%d",sp[0],sp[1]); }
+			bv::emit("\"e\":\"Burst\",\"n\":%d",N);
+			int hs=next_h++; slow_handler sf={hs,60}; aio::handler sh(sf); keep2[0].push_back(sh);
+			bv::emit("\"e\":\"Reg\",\"h\":%d,\"p\":%lu,\"kind\":\"post\"",hs,pid_of(sh.get_pointer().get()));
+			reg_count++; srv->post(sh);
+			for(int n=0;n<=N;n++) {
+				if(n==1) {
+					// the first wait is queued before run(); the others while the loop is inside the slow handler
+					booster::thread *lt=new booster::thread((loop_runner())); th_burst=lt;
+					for(int spin=0;spin<100000 && !slow_started(hs);spin++) usleep(100);
+					usleep(3000);
+				}
+				int h=next_h++; ev_handler f={h}; aio::event_handler eh(f); keep[0].push_back(eh);
+				bv::emit("\"e\":\"Reg\",\"h\":%d,\"p\":%lu,\"kind\":\"io\",\"fd\":%d,\"ev\":%d",h,pid_of(eh.get_pointer().get()),fds[n],(int)aio::io_events::in);
+				reg_count++;
+				srv->set_io_event(fds[n],aio::io_events::in,eh);
+			}
+			if(N==0) { th_burst=new booster::thread((loop_runner())); }
+			for(size_t n=0;n<peers.size();n++) { char c='x'; if(write(peers[n],&c,1)<0) {} }
+			for(int n=0;n<3;n++) {
+				int h=next_h++; plain_handler f={h}; aio::handler hh(f); keep2[0].push_back(hh);
+				bv::emit("\"e\":\"Reg\",\"h\":%d,\"p\":%lu,\"kind\":\"post\"",h,pid_of(hh.get_pointer().get()));
+				reg_count++; srv->post(hh);
+			}
+			for(int spin=0;spin<100000 && ran_count.load()<reg_count.load();spin++) usleep(100);
+			bv::emit("\"e\":\"Quiesce\",\"reg\":%ld,\"ran\":%ld",reg_count.load(),ran_count.load());
+			if(ran_count.load()<reg_count.load()) { bv::close(); _exit(0); } // a stuck loop holds its mutex: stop() would block too
+			srv->stop();
+			th_burst->join(); delete th_burst; th_burst=0;
+			for(size_t n=0;n<fds.size();n++) { close(fds[n]); close(peers[n]); }
 			keep.clear(); keep2.clear();
 			delete srv; srv=0;
 			continue;
